@@ -92,6 +92,32 @@ def writer_seq(res, E):
         raise mir.Inconclusive("process_once has no notifying path")
     return best
 
+def check_every_change_notifies(res, E):
+    """a change of the served version reaches the waiting requests: process_once notifies whenever update() reports
+    a change, and update() reports a change whenever it pushed a delta (obligation shared with C14)"""
+    import c14
+    from gating import must
+    body = E.prog.find("src/operation.rs", "Server", "process_once")
+    n = 0
+    for i, p in enumerate(E.explore(body, max_visits=2, nomut=[r"."])):
+        if p.kind != "return":
+            continue
+        upd = [x for x, e in enumerate(p.events) if e.kind == "call" and e.name.endswith("SharedHistory::update")]
+        if not upd:
+            continue
+        n += 1
+        flag = p.events[upd[-1]].dest.get(())
+        noti = [x for x, e in enumerate(p.events) if e.kind == "call" and e.name.endswith("NotifySender::notify") and x > upd[-1]]
+        if mir.is_z(flag) and E.feasible(p.cond, flag) and not noti:
+            fn = mprop.write_cex(res, "changed_without_notify_%d" % i, p, E, "update() may report a change on this path, yet no notification is sent")
+            res.violation("mir:change-without-notify", "process_once installs a changed data set without notifying the waiting /json-delta/notify requests", fn)
+        elif not mir.is_z(flag):
+            res.inconclusive.append("process_once: result of SharedHistory::update is not a Boolean the path branches on")
+    if not n:
+        res.inconclusive.append("vacuity: process_once has no path through SharedHistory::update")
+    res.distinct += n
+    c14.check_update_plumbing(res, E)
+
 
 def check_need_wait_atomic(res, E):
     body = [b for n, bs in E.prog.bodies.items() if re.search(r"(^|::)need_wait$", n) for b in bs]
@@ -180,6 +206,7 @@ def run(res, tier):
     wr = writer_seq(res, E)
     check_need_wait_atomic(res, E)
     check_need_wait_spec(res, E)
+    check_every_change_notifies(res, E)
     _, rnodes = mc.build_automaton(req)
     n_writes = 1 if tier == "quick" else 2
     _, wnodes = mc.build_automaton([wr * n_writes])
